@@ -5,14 +5,15 @@ import graphs as gr
 
 PROP = "C06"
 FAMILIES = ["bigint", "int257", "tuple", "frozenset", "str", "char"]
-RULE = ("every DAG(n) with every disjoint (L,S) (3^n assignments) and every ordered node pair: n<=3 and a seeded third of n=4 "
-        "(quick) / n<=4 complete and 3 seeded (L,S) for each of the 29281 DAGs on 5 nodes (thorough); the same n<=3 stream under each "
+RULE = ("every DAG(n) n<=4 with every disjoint (L,S) (3^n assignments) and every ordered node pair (both tiers); "
+        "6 seeded (L,S) for each of the 29281 DAGs on 5 nodes (thorough); the same n<=3 stream under each "
         "of the six non-default label families (labels rebuilt at every use, so equal but not identical objects); every "
-        "ADMG(n) n<=3 with every (L,S) for inducing_path (ADMG(4) sampled in thorough); seeded random DAGs/ADMGs 5<=n<=8 "
+        "ADMG(n) n<=3 with every (L,S) for inducing_path (ADMG(4) sampled in thorough); the 120 relabellings of a 5-node witness of "
+        "the visit-order dependence; seeded random DAGs/ADMGs 5<=n<=8 "
         "(where the order dependence of the shared visited set shows). distinct by (canonical graph, L, S, label family); "
         "non-trivial = some returned inducing path has an inner node")
-EXHAUSTIVE = {"quick": "DAG(n) x all disjoint (L,S) x all ordered pairs, n<=3 (x 7 label families); ADMG(n) n<=3 likewise",
-              "thorough": "DAG(n) x all disjoint (L,S) x all ordered pairs, n<=4; ADMG(n) n<=3"}
+EXHAUSTIVE = {"quick": "DAG(n) x all disjoint (L,S) x all ordered pairs, n<=4 (n<=3 under all 7 label families); ADMG(n) n<=3 likewise",
+              "thorough": "same as quick, plus every DAG(5) with 6 seeded (L,S)"}
 TRUSTED = ["networkx ancestors / predecessors / all_neighbors taken at face value",
            "validity of a returned path = membership in the model's list of all inducing paths of that pair"]
 ASSUMPTIONS = ["default edge-type names", "graph passed as pywhy_graphs.ADMG (what dag_to_mag's own tests pass)",
@@ -42,8 +43,6 @@ def gen_cases(tier, rng):
     for n in (1, 2, 3, 4):
         for g in gr.enum_dag(n):
             for L, S in all_ls(g["V"]):
-                if n == 4 and quick and rng.random() > 0.34:
-                    continue
                 yield mk("dag%d" % n, g, L, S, True)
     for fam in FAMILIES:
         for n in (2, 3):
@@ -56,9 +55,14 @@ def gen_cases(tier, rng):
                 continue
             for L, S in all_ls(g["V"]):
                 yield mk("admg%d" % n, g, L, S, False)
+    # visit-order stream: every relabelling of a 5-node graph on which a DFS that never un-marks [visited] misses the
+    # inducing path 1 <- 4 <-> 3 <-> 0 (L = {4}) for some neighbour orders
+    w = gr.G(range(5), D=[(2, 0), (4, 1), (3, 2)], B=[(0, 3), (2, 4), (3, 4)])
+    for perm in itertools.permutations(range(5)):
+        yield mk("perm5", gr.relabel(w, lambda v: perm[v]), [perm[4]], [], False)
     if not quick:
         for g in gr.enum_dag(5):
-            for _ in range(3):
+            for _ in range(6):
                 a = [rng.choice((0, 0, 1, 2)) for _ in g["V"]]
                 yield mk("dag5", g, [v for v in g["V"] if a[v] == 1], [v for v in g["V"] if a[v] == 2], True)
         for g in gr.enum_admg(4):
@@ -140,7 +144,10 @@ def compare(case, impl, model):
 
 
 def classify(case, impl, model):
-    return None
+    """no known findings are recorded for C06 (all four defects have fix proposals); the key only keeps the
+    shrinker on the observable it started from - it matches no KNOWN_FINDINGS entry, so it is still a VIOLATION"""
+    r = compare(case, impl, model)
+    return None if r is None else "unrecognised:" + r
 
 
 def nontrivial(case, model):
@@ -160,6 +167,8 @@ def shrink(case):
         yield dict(case, L=[w for w in case["L"] if w != v])
     for v in case["S"]:
         yield dict(case, S=[w for w in case["S"] if w != v])
+    if case["dag"]:
+        yield dict(case, dag=False)
     if len(case["qs"]) > 1 and not case["dag"]:
         for q in case["qs"]:
             yield dict(case, qs=[q])
